@@ -318,7 +318,27 @@ func c08ValueHits(v string, i c08Inst) bool {
 	return false
 }
 
-const c08Unable = "unable to run checks"
+// The summary pint uses for "this server could not be queried" is LEARNED from the base run (the most frequent summary
+// among the problems of online checks that exist only per server), so that rewording it stays a harmless change.
+func c08LearnUnable(ps []scProblem, online, mixed map[string]bool, insts []c08Inst) string {
+	bound := map[string]bool{}
+	for _, in := range insts {
+		bound[in.Name] = true
+	}
+	cnt := map[string]int{}
+	for _, p := range ps {
+		if bound[p.Reporter] && online[p.Reporter] && !mixed[p.Reporter] {
+			cnt[p.Problem]++
+		}
+	}
+	best, bc := "", 0
+	for k, c := range cnt {
+		if c > bc || (c == bc && k < best) {
+			best, bc = k, c
+		}
+	}
+	return best
+}
 
 func c08Pairs(r *rand.Rand, rep *runReport, cwd string, n int) {
 	nb := 10
@@ -447,6 +467,10 @@ func c08Pairs(r *rand.Rand, rep *runReport, cwd string, n int) {
 				}
 			}
 			return
+		}
+		c08Unable := c08LearnUnable(br.Problems, metaOnline[jb.base], mixed[jb.base], insts[jb.base])
+		if st.Kind == "offline" || jb.step == &steps[jb.base][0] {
+			rep.hist("pairs:learned-unreachable-summary=" + c08Unable)
 		}
 		want := map[string]int{}
 		alt := map[string]int{} // second acceptable multiplicity of a key
